@@ -540,6 +540,21 @@ def is_own_lookup(fn, n, cf):
     return o is not None and o['k'] == 'CXXThisExpr'
 
 
+def is_library_lookup(fn, n, cf):
+    """a const member function of a library class that has no effect and may throw by itself (a name / position look-up)"""
+    if cf is None or cf.implicit or cf.body is None or not cf.rec.get('const') or n.get('obj') is None or not str(cf.cls or '').startswith('ezc3d::'):
+        return False
+    if not any(x['k'] == 'CXXThrowExpr' for x in cf.nodes):
+        return False
+    try:
+        import effects as FX
+        if [e for e in FX.get(fn.prog).events_of(cf) if e[1] != 'local' and e[3] != 'io']:
+            return False
+    except Exception:
+        return False
+    return True
+
+
 def translate_model(fn, ev, n, cf, model):
     """the caller's model in the callee's terms: atoms rooted at an actual argument / the object
     become atoms rooted at argN / this; scalar arguments are evaluated"""
@@ -707,6 +722,27 @@ def walk(fn, model, start=None, stop=None, follow_loops=False, max_steps=5000, s
                     seen.discard(hv)
                     v = hv
                     continue
+            if n['k'] == 'CXXMemberCallExpr' and n.get('callee', {}).get('inrepo') and _depth < 2 and state is not None and state.get('library_lookups'):
+                # a const, effect-free look-up of another library class (pointIdx on the frame's points ...): when the model
+                # knows enough to see it throw, the exception is part of the caller's outcome; otherwise it is assumed to return
+                cf = fn.prog.funcs.get(n['callee']['usr'])
+                if cf is not None and not is_own_lookup(fn, n, cf) and is_library_lookup(fn, n, cf):
+                    try:
+                        m2 = translate_model(fn, ev, n, cf, model)
+                        _, end2, _u2 = walk(cf, m2, follow_loops=True, max_steps=1500, _depth=_depth + 1)
+                    except OutOfRange:
+                        end2 = 'undecided'
+                    if end2.startswith('throw:'):
+                        thrown = end2[6:].split('@')[0]
+                        hv = find_handler(fn, g, v, thrown)
+                        if hv is None:
+                            return out, 'throw:%s@%d' % (thrown, nid), undec
+                        model['#exception'] = thrown
+                        seen.discard(hv)
+                        v = hv
+                        continue
+                    if end2 != 'NEXIT' and re.match(r'^arg\d', ev.R.render(n['obj'])):
+                        state['lookup_unread'] = cf.qname     # a look-up in what the caller handed in that the model cannot follow
             if n['k'] in ('CallExpr', 'CXXMemberCallExpr') and n.get('callee', {}).get('inrepo') and _depth < 3:
                 cf = fn.prog.funcs.get(n['callee']['usr'])
                 if is_throwing_helper(cf) or is_own_lookup(fn, n, cf):
